@@ -24,6 +24,8 @@ def explore(ctx, for_c16=False):
                 if for_c16:
                     ctx.count("threads_greenlets_custom_items", o["other_items"])
                     for b in o["c16"]:
+                        if b.startswith("harness"):
+                            raise MachineryError(f"[{v}] {b}")
                         ctx.violation(f"[{v}] {b}", None)
                 continue
             case = cases[o["idx"]]
